@@ -109,8 +109,8 @@ def run(c):
             cases.append(("corpschema", 4, open(os.path.join(tls, "schema.tl")).read(), "corpus"))
     except OSError:
         pass
-    nvalid = 60 if c.thorough else 6
-    nmut = 120 if c.thorough else 24
+    nvalid = 40 if c.thorough else 6
+    nmut = 80 if c.thorough else 24
     for i in range(nvalid):
         g = SchemaGen(rng.fork())
         opt = rng.choice(TL2_SAFE_OPTS) if g.tl2 else rng.below(NOPT)
